@@ -66,7 +66,7 @@ def make_obj(o):
 
 def enc_vec(e):
     """accumulator entry: the python scalar 0 / 0.0 of a fresh list -> [], arrays -> flat list"""
-    if isinstance(e, (int, float)) and not isinstance(e, bool):
+    if type(e) in (int, float):
         return [] if e == 0 else [fr(e)]
     return [fr(v) for v in onp.reshape(onp.asarray(e, dtype=float), (-1,))]
 
